@@ -96,6 +96,7 @@ def run(ctx):
         extra[i], extra[j] = extra[j], extra[i]
     cases = cases + extra[:ctx.n(12, len(extra))]
     json.dump(cases, open(os.path.join(d, "cases.json"), "w"))
+    ctx.log("phase: gen + go build")
     skip, gobuild = [], {}
     for attempt in range(4):
         rc, out = ctx.run([impl, "gen", "-dir", d, "-cases", os.path.join(d, "cases.json"), "-skip", ",".join(map(str, skip))], cwd=d, timeout=300)
@@ -121,6 +122,7 @@ def run(ctx):
         skip = sorted(set(skip) | bad)
     for k, msg in gobuild.items():
         status[k] = "go-build-error: " + msg
+    ctx.log("phase: run + model")
     rc, out = ctx.run([os.path.join(d, "prog")], timeout=120)
     if rc != 0:
         ctx.broken("correspondence(c03: run of the grid program)", "rc=%d %s" % (rc, out[-800:]))
